@@ -364,6 +364,15 @@ def check_C11(chk, tier, seed):
             else:                 # in one piece, then an idle hour, then nothing more
                 toks += ["H"] + [f"PL {hx(hp)} {hx(n)}" for hp, n in zip(hops, sizes)] + ["U", "T " + hx(3600000)]
             cases.append((line(toks), toks, True))
+    # 40 and 100 answers delivered by ONE read, then silence (the peer has nothing more to say and keeps the connection open): every
+    # one of them reaches its future - what the reader has taken from the stream it hands out, however many messages that is
+    for nans in (40, 100):
+        hops = [0x4000 + j for j in range(nans)]
+        toks = []
+        for hp in hops:
+            toks += [f"R {hx(hp)}", "W"]
+        toks += ["H"] + [f"P {hx(hp)}" for hp in reversed(hops)] + ["U", "T " + hx(3600000)]
+        cases.append((line(toks), toks, True))
     # more than a mebibyte of answers over the life of one connection (five of 300 000 octets, answered out of order; then
     # small ones): whatever bound a reader has is per message, not per connection
     hops = [0xb0 + j for j in range(8)]
